@@ -25,3 +25,103 @@ P("C01",
   "base case: the real constructors and the real new-chunk path establish the invariant.",
   ["chunks larger than the per-harness END bound (1 KiB quick; 16 KiB / 68 KiB thorough)", "alignments above 4096",
    "more than 2 chunks in the pre-state", "multi-step histories other than via the stated induction"])
+
+P("C02",
+  "Initialisation glue of every allocation method (alloc/_with, slice copy/clone/fill_with/fill_iter/fill_default/fill_copy/fill_clone, str and the try_ twins) "
+  "decided on small concrete chunks with symbolic values: result equals the specification at a symbolic index, initialiser called once per element in index order, iterator consumed in order; "
+  "grow/shrink keep the first min(old,new) bytes: the block either stays or exactly one copy of >= min(old,new) bytes goes from the old to the new block (range-recording copy stubs, any sizes), "
+  "plus byte-level content harnesses on small blocks; frame: one allocation/realloc step never stores into the live region (concrete-offset probe bytes).",
+  ["slices longer than 3 elements, strings longer than 3 bytes (loop length is the cost driver)", "contents beyond 16 bytes in the byte-level realloc harnesses",
+   "correctness of memcpy/memmove themselves (substituted by loops / range stubs)"])
+
+P("C03",
+  "Release side: reset / drop / reset-alloc-drop over hand-made chunk lists of 0..3 chunks whose blocks are registered in the global-allocator ledger: every block freed exactly once, "
+  "with the recorded layout, nothing foreign (static sentinel) freed, nothing live after drop, reset keeps exactly the current chunk. Acquire side: one real slow-path call / constructor under the "
+  "pool model with a symbolic refusal mask: on success exactly one new ledger block, linked in front with the recorded layout; on failure no block obtained or freed. &self operations never free.",
+  ["more than 3 chunks in a list, more than 8 global-allocator requests in one operation", "request sizes on the acquire side are concrete per instance (see bounds)",
+   "'nothing is given back while a reference can be alive' beyond 'only reset(&mut self) and drop free' is the borrow checker's part (C05, not applicable)", "thread moves (a move is a memcpy for a sequential model)"])
+
+P("C04",
+  "Every pointer returned by allocate (fast path from any chunk state, all sizes, align <= 4096), grow, shrink and the new-chunk path is aligned to the requested alignment and to MIN_ALIGN for "
+  "M in {1,2,4,8,16}; chunk requests carry align >= max(16, M, request) at full width; the static sentinel's type alignment covers every supported MIN_ALIGN; constructors with MIN_ALIGN in {0,3,24,32} do not return.",
+  ["alignments above 4096", "the linker's actual placement of the static sentinel (CBMC places statics at 2^48-aligned addresses; the type-alignment fact is checked instead)",
+   "new-chunk path: concrete request per instance"])
+
+P("C06",
+  "After reset (from hand-made lists of 0..3 registered chunks, any finger positions, any limit): iteration yields exactly the kept chunk with 0 allocated bytes, at most one ledger block is live, "
+  "chunk_capacity equals the kept block's usable size and any request <= that capacity (size multiple of M, align <= M) is served with the global allocator forbidden, limit and min_align unchanged, "
+  "second reset idempotent; chunk-less arena: reset touches nothing (no allocator call, sentinel pristine).",
+  ["more than 3 chunks before reset, more than 2 resets, more than one follow-up request"])
+
+P("C07",
+  "Decision side at full 64-bit magnitudes (stand-alone footer, A-null): every chunk the slow path requests keeps held+usable <= limit, including limits below what is held and the small-limit bypass on a "
+  "chunk-less arena; with no limit something is always attempted. Commit side (pool model): after acquiring a chunk allocated_bytes() <= limit. Fast path: a request that fits the current chunk "
+  "(implementation's own padding rule) succeeds for every limit. Pure lemma: the limit filter admits exactly candidates within the headroom.",
+  ["more than 5 halvings of the candidate size (ratio 2*current/max(request,448) >= 32)", "current chunk sizes above 2^56", "commit side: concrete request per instance, chunks <= 1 KiB"])
+
+P("C08",
+  "allocated_bytes_including_metadata() == sum of live ledger blocks and allocated_bytes() == that minus 48 per chunk: after the real constructors, after a real chunk acquisition, after reset (x2) on lists of 0..3 chunks; "
+  "zero for chunk-less arenas; unchanged by every operation that obtained or released no chunk (snapshot around allocation / realloc / failed slow-path steps).",
+  ["more than 3 chunks", "chunk sizes other than those the harness lists build (448/960/1984 usable) on the release side"])
+
+P("C09",
+  "Kani reports every reachable panic, overflow, failed debug assertion and out-of-bounds pointer operation as a failed check: the try_ entry points are run with symbolic requests (full width where no memory is touched) "
+  "under refusing / partially refusing allocator models and must come back with zero failed checks and pass the unwinding assertions (termination); on Err: finger, current chunk, accounting, capacity and ledger unchanged; "
+  "infallible twins: the post-call cover after an infallible call is unreachable exactly when the fallible twin fails (twin harnesses).",
+  ["more than 5 halvings in the retry loop (F4), more than 8 allocator requests per operation", "release-profile-only behaviour (overflow checks off)", "commit side: concrete request per instance"])
+
+P("C10",
+  "Iterator: over hand-made lists of 1..3 chunks with symbolic fingers, iter_allocated_chunks and iter_allocated_chunks_raw yield the same sequence (finger, footer-finger) newest first, each inside its chunk, "
+  "never the sentinel, read-only. Step lemma (from any chunk state): a successful request with M <= align <= 16, size and finger multiples of align is placed at finger-size exactly (no padding); "
+  "a fresh chunk's first uniform object ends at the footer; failed initialisers rewind the finger.",
+  ["more than 3 chunks", "the induction from the step lemma to 'slices contain exactly the objects' is on paper"])
+
+P("C11",
+  "alloc_try_with / try_alloc_try_with from an arbitrary state of a 256-byte chunk: initialiser run at most once and not at all if reservation fails, error payload delivered bit-identical and its destructor count is 0 before and 1 after the caller drops it, "
+  "capacity and finger restored, follow-up request of the same layout served with the global allocator forbidden; new-chunk case (pool model) likewise; initialiser that allocates and keeps (block stays valid, untouched, not overlapped later) or allocates and releases (capacity restored); "
+  "alloc_slice_try_fill_with/_iter with a symbolic failing index.",
+  ["value types other than u64 / [u8;200], error types other than (u32, Drop-ledger) / u32", "slices longer than 3", "chunks larger than 256 bytes in the same-chunk harness"])
+
+P("C12",
+  "Through <&Bump<M> as allocator_api2::alloc::Allocator>: one deallocate / shrink / grow / grow_zeroed step on ANY live block (symbolic position, size, alignment; last or not) next to a representative other live block, "
+  "new layout of any size and alignment <= 4096: result fits the new layout, lies in (former free space U old block), does not overlap the other block, finger never raised past a live block, prefix preserved via exactly one sufficient copy "
+  "(copy_nonoverlapping asserted non-overlapping), on Err nothing moved or copied; deallocate of a non-last block changes nothing. grow_zeroed tail zero on small blocks.",
+  ["chunks above 1 KiB", "multi-step interleavings other than via the stated induction", "allocator_api2 collections on top of the arena (consequence of the contract, not executed)", "the nightly allocator_api feature (same code, different import)"])
+
+P("C18",
+  "Lemmas: (1) constructors honour the capacity (real constructor, concrete capacities; size computation for all 64-bit capacities); (2) from any chunk state a uniform request lowers chunk_capacity() by exactly its size and any request "
+  "that fits by the implementation's padding rule is served without the global allocator (chunk_capacity never overstates); (3) the first chunk requested is >= 2x the current one and >= the request, later attempts never grow, "
+  "chunk sizes are monotone in the hint and within 2x+4096 of what was needed; (4) RawVec::amortized_new_size >= max(2*cap, used+extra) or error.",
+  ["'logarithmically many requests' and 'constant-factor memory' follow from (3),(4) by a geometric-series argument on paper", "more than 5 halvings"])
+
+P("C19",
+  "Full-width size arithmetic: round_up_to is None exactly on overflow; new_chunk_memory_details never yields a size below the request or a wrapped total; constructors and slow path never pass a request above isize::MAX to the global allocator; "
+  "slice/Vec entry points with any 64-bit count/capacity: 'returned normally and the reserved memory is smaller than count*size' is unsatisfiable.",
+  ["current chunks above 2^56 bytes (doubling a chunk above 2^62 overflows OVERHEAD addition; unreachable on real machines)", "element sizes other than those instantiated"])
+
+P("C20",
+  "Sequential footprint only: one operation (allocation of any layout, set_allocation_limit, iteration, reset, drop) on arena A leaves every observable of arena B (capacity, accounting, limit, footer fields, finger, a probe byte) bit-identical, "
+  "the shared static sentinel keeps its initial value and a monitor on Cell::set records no store into it (same-value stores included).",
+  ["threads, schedules, Send hand-over and actual concurrent execution: Kani does not model threads; the footprint premise => race freedom step is on paper", "stores that bypass Cell::set are seen only by the value comparison"])
+
+P("C13",
+  "Single Vec<u8>/Vec<u32> operation from a small concrete shape (capacity 4, length 0..4) with symbolic element values and arguments against an array reference model: return value, contents at a symbolic index, length, capacity >= length, "
+  "capacity >= len+additional after reserve; panic-iff for index-taking operations (post-call cover unreachable exactly when the index is out of range); neighbours (canary block, sibling Vec) unchanged across growth.",
+  ["vectors longer than 4..8 elements", "multi-operation programs (single step + invariant only)", "splice, drain_filter with stateful predicates, collect_in size-hint games, vec! macro",
+   "std::vec::Vec itself is not executed symbolically; the reference model is a 60-line array model", "release-only divergences (found only by native replay)"])
+
+P("C14",
+  "Single String operation on strings of <= 4 bytes (assumed valid UTF-8, all mixes of 1..4-byte characters that fit) with symbolic index/char: result bytes equal the byte-array model and are valid UTF-8; "
+  "non-boundary or out-of-range index => the call does not return; utf8_char_width equals the RFC 3629 lead-byte classification for all 256 bytes; from_utf8 accepts iff core::str::from_utf8 does (<= 3 bytes); "
+  "lossy decoder kernel vs <[u8]>::utf8_chunks on short inputs.",
+  ["strings longer than 4 bytes, decoder inputs longer than 3 bytes", "format!, extend, from_utf16 beyond 2 units", "multi-operation programs"])
+
+P("C15",
+  "Vec<D> with 3 identified elements (drop ledger): one operation (pop, remove, swap_remove, truncate, clear, drain consumed j then dropped, into_iter consumed front/back then dropped, retain(mask), dedup, split_off, "
+  "into_boxed_slice, into_bump_slice, mem::forget(drain)), then container drop, then arena reset/drop: every counter ends at exactly 1 (0 for documented leaks), never 2, and is 0 while the element is still reachable.",
+  ["more than 3 elements, more than one operation", "Splice / DrainFilter beyond the listed shapes"])
+
+P("C17",
+  "Box::new_in derefs to the value; eq/ord/hash agree; drop runs the destructor once, makes no allocator call and leaves the finger; into_inner / into_raw+from_raw / leak round trips preserve the value and drop nothing early; "
+  "downcast is Ok with the same value iff the type matches; Box<[T;3]> <-> Box<[T]> and Vec -> boxed slice keep order, each element dropped once.",
+  ["Future/Iterator/fmt forwarding (pure delegation)", "unsized boxes other than slices and dyn Any"])
